@@ -128,6 +128,56 @@ fn gen_dot_expr(t: &mut Tape) -> Expr {
     normalize(&e, true)
 }
 
+/// shapes around the rooting rules: a rooted unit (`/a`, `/**/a`, `</a:1,>`, `{/a}` …) nested at
+/// the start of alternation branches / repetition bodies, with and without tokens after it, next
+/// to unrooted siblings.  Most must not build; whatever builds must be Always or Never rooted.
+fn gen_rooting_expr(t: &mut Tape) -> Expr {
+    fn unit(t: &mut Tape, depth: usize) -> Vec<Tok> {
+        let a = Tok::lit(t.pick(&["a", "b"]));
+        match t.below(if depth < 2 { 6 } else { 2 }) {
+            0 => vec![Tok::Sep, a],
+            1 => vec![Tok::Tree { lead: true, trail: true }, a],
+            2 | 3 => {
+                let (lo, hi) = t.pick(&[(1, None), (1, Some(1)), (2, Some(2)), (0, None), (1, Some(2)), (0, Some(1))]);
+                let mut body = unit(t, depth + 1);
+                if t.chance(60) {
+                    body.push(Tok::lit("x"));
+                }
+                vec![Tok::Rep { body, lo, hi, spell: 0 }]
+            },
+            4 => vec![Tok::Alt(vec![unit(t, depth + 1)])],
+            _ => vec![Tok::Alt(vec![unit(t, depth + 1), vec![Tok::lit("c")]])],
+        }
+    }
+    let mut first = unit(t, 0);
+    if t.chance(140) {
+        first.push(Tok::lit(t.pick(&["b", "y"])));
+    }
+    if t.chance(40) {
+        first.push(Tok::Sep);
+        first.push(Tok::Zom { lazy: false });
+    }
+    let mut branches = vec![first];
+    if t.chance(200) {
+        branches.push(vec![Tok::lit("c")]);
+    }
+    if t.chance(60) {
+        let last = branches.len() - 1;
+        branches.swap(0, last.min(1));
+    }
+    let mut e = vec![Tok::Alt(branches)];
+    match t.below(5) {
+        0 => e = vec![Tok::Rep { body: e, lo: 1, hi: None, spell: 0 }],
+        1 => e.push(Tok::lit("z")),
+        2 => e = vec![Tok::Alt(vec![e, vec![Tok::lit("d")]])],
+        3 => {
+            e.insert(0, Tok::Rep { body: vec![Tok::lit("p")], lo: 0, hi: Some(1), spell: 0 });
+        },
+        _ => {},
+    }
+    normalize(&e, true)
+}
+
 impl Property for C12 {
     type Case = PatCase;
     fn id(&self) -> &'static str {
@@ -156,7 +206,7 @@ impl Property for C12 {
         }
     }
     fn required_counters(&self) -> Vec<&'static str> {
-        vec!["root_always", "root_never", "root_sometimes_any", "always_rooted_matched", "dot_component", "dot_component_nested", "dot_near_miss"]
+        vec!["rooting_family_built", "root_always", "root_never", "root_sometimes_any", "always_rooted_matched", "dot_component", "dot_component_nested", "dot_near_miss"]
     }
     fn decode(&self, t: &mut Tape) -> PatCase {
         let n = 1 + t.weighted(&[80, 20]);
@@ -165,9 +215,19 @@ impl Property for C12 {
                 if t.chance(100) {
                     gen_dot_expr(t)
                 }
+                else if t.chance(60) {
+                    gen_rooting_expr(t)
+                }
                 else {
                     let mut cfg = GenCfg::default();
                     cfg.weights = [30, 18, 5, 9, 13, 5, 11, 11];
+                    if t.chance(90) {
+                        // rule-agnostic: shapes the rules ought to reject (rooted branches nested
+                        // at the start of branches); whatever builds must still be Always / Never
+                        cfg.violate = 70;
+                        cfg.weights = [26, 24, 2, 6, 12, 2, 16, 14];
+                        cfg.noise_flags = 0;
+                    }
                     gen_expr(t, &cfg)
                 }
             })
@@ -203,6 +263,9 @@ impl Property for C12 {
                 return Ok(());
             },
         };
+        if case.exprs.iter().any(|e| any_tok(e, &|t, d| d >= 1 && matches!(t, Tok::Sep | Tok::Tree { lead: true, .. }))) {
+            st.count("rooting_family_built");
+        }
         match root {
             When::Always => st.count("root_always"),
             When::Never => st.count("root_never"),
